@@ -532,10 +532,37 @@ func (g *genCtx) anyNodes(nodes []NodeSpec, startSucc []int, startBranches []Bra
 	for _, n := range nodes {
 		add(n.Succ, n.Branches)
 	}
+	// A passthrough node takes its type from the first typed neighbour it is connected to: behind an
+	// any-typed node it is any-typed itself, and as a fan-in target it then asks eino to merge a stream of
+	// any with the other streams, which eino refuses at run time ("unsupported chunk type: interface {}" /
+	// "chunk type mismatch" — a documented limit of stream fan-in, Invoke merges the same values). Such a
+	// graph never completes in stream mode, so no any-typed node is placed where a chain of passthrough
+	// nodes leads from it to a passthrough node with several predecessors.
+	var feedsFanInPass func(i int, seen map[int]bool) bool
+	feedsFanInPass = func(i int, seen map[int]bool) bool {
+		if seen[i] {
+			return false
+		}
+		seen[i] = true
+		var outs []int
+		outs = append(outs, nodes[i].Succ...)
+		for _, b := range nodes[i].Branches {
+			outs = append(outs, b.Ends...)
+		}
+		for _, t := range outs {
+			if t < 0 || t >= len(nodes) || nodes[t].Kind != "pass" {
+				continue
+			}
+			if preds[t] > 1 || feedsFanInPass(t, seen) {
+				return true
+			}
+		}
+		return false
+	}
 	for i := range nodes {
 		switch nodes[i].Kind {
 		case "xform", "conv", "ident", "pass":
-			if preds[i] == 1 && g.r.Chance(1, 5) {
+			if preds[i] == 1 && g.r.Chance(1, 5) && !feedsFanInPass(i, map[int]bool{}) {
 				nodes[i].Kind = "anyx"
 			}
 		}
